@@ -152,6 +152,7 @@ class CleanBase(Prop):
 
 class C09(CleanBase):
     pid = "C09"
+    wants_dirs = True
     rule = ("directory trees (default snapshot file with live and stale entries at every position incl. ordinals beyond "
             "the call count, stale standalone files, old *.snap files, unrelated files, x.snap.bak, sub-directories, an "
             "unvisited directory) x a run addressing some slots (-count 1-3) x Clean in every mode cell CI x UPDATE_SNAPS x sort; "
